@@ -39,7 +39,7 @@ SWITCHES = {
 NAMES = list(SWITCHES)
 FAMS = ["exact", "matern05", "matern_ard", "matern25_ard", "sumprod", "zeromean", "linearmean", "fixednoise", "fixednoise_learn",
         "multitask", "multitask_r0"]
-SHAPES = [(1, 1, 1), (2, 1, 3), (5, 2, 3), (6, 3, 1)]
+SHAPES = [(1, 1, 1), (2, 1, 3), (5, 2, 3), (6, 3, 1), (3, 1, 3)]  # last: as many test as training points
 BATCHES = [((), (), ()), ((2,), (2,), (2,)), ((), (), (2,)), ((2,), (), ()), ((), (2,), ()), ((2,), (2,), ()), ((2,), (), (2,)),
            ((), (2,), (3, 2)), ((2,), (1,), (2,)), ((3, 2), (3, 2), (3, 2)), ((2,), (2,), (3, 2))]
 
@@ -81,7 +81,7 @@ def cells(tier, seed):
             continue
         if tier == "quick":
             # quick: every family x every batch triple on two shapes; every shape and both valuations on the base family
-            if fam != "exact" and (shp not in (SHAPES[1], SHAPES[2]) or val == 1):
+            if fam != "exact" and (shp not in (SHAPES[1], SHAPES[2], SHAPES[4]) or val == 1):
                 continue
         out.append({"fam": fam, "shape": list(shp), "mb": list(mb), "trb": list(trb), "teb": list(teb), "val": val, "tier": tier})
     return out
@@ -136,6 +136,11 @@ def reference(model, X, y, Xs, fam, noise_test):
         zero_m = torch.zeros(*Kss.shape[:-2], m, t, dtype=F64) if mt else torch.zeros(*Kss.shape[:-2], m, dtype=F64)
         kw = {"noise": noise_test} if noise_test is not None else {}
         Stest = model.likelihood(cls(zero_m, I_m), Xs, **kw).covariance_matrix - I_m
+        if noise_test is not None:
+            # an explicit call-time noise is documented to be used IN PLACE OF the stored fixed noise: known independently
+            Stest = torch.diag_embed(noise_test.expand(*Kss.shape[:-2], m))
+            if fam == "fixednoise_learn":
+                Stest = Stest + model.likelihood.second_noise.reshape(*model.likelihood.second_noise.shape[:-1], 1, 1) * torch.eye(m, dtype=F64)
     yflat = y.reshape(*y.shape[: y.dim() - (2 if mt else 1)], -1)
     mean, cov = dense.conditional(Kxx + Strain, Kxs.mT, Kss, mx, ms, yflat)
     return mean, cov, Stest
